@@ -6,7 +6,7 @@ import os
 # length, 9 registry recorder store, 10 FundAccount payment below FundAccountCost.  Add the number here when its `fix:` commit lands in /repo; the model
 # driver then expects the repaired behaviour at that site (Hostd.Mdm.Fixes.enable).  VERIF_MDM_FIXED
 # (space separated) overrides the list, e.g. to check a scratch tree: VERIF_MDM_FIXED="1 2 3" VERIF_REPO=... bin/check C14
-FIXED_IN_REPO = [1, 2, 3, 4, 5, 6, 7, 8, 9]
+FIXED_IN_REPO = [1, 2, 3, 4, 5, 6, 7, 8, 9, 10]
 _fixed = os.environ.get("VERIF_MDM_FIXED")
 _driver_args = _fixed.split() if _fixed is not None else [str(n) for n in FIXED_IN_REPO]
 
